@@ -1005,6 +1005,20 @@ func (rc *raftNode) processReady(rd raft.Ready) {
 		}
 	}
 	processedMsgs, hasRequestSnapMsg := rc.processMessages(rd.Messages)
+	start := time.Now()
+	// committed entries which are not yet in the WAL (possible if this node alone is the quorum) must be
+	// persisted before they are handed to the apply loop, otherwise a write can be acknowledged to the
+	// client and then lost by a crash before the WAL write.
+	persisted := false
+	if raft.IsEmptySnap(rd.Snapshot) && shouldWaitWALSync(&rd) {
+		if err := rc.persistRaftState(&rd); err != nil {
+			rc.Errorf("raft save states to disk error: %v", err)
+			go rc.ds.Stop()
+			<-rc.stopc
+			return
+		}
+		persisted = true
+	}
 	if len(rd.CommittedEntries) > 0 || !raft.IsEmptySnap(rd.Snapshot) || hasRequestSnapMsg {
 		var newPublished uint64
 		if !raft.IsEmptySnap(rd.Snapshot) {
@@ -1048,13 +1062,15 @@ func (rc *raftNode) processReady(rd raft.Ready) {
 		rc.transport.Send(processedMsgs)
 	}
 
-	start := time.Now()
 	// TODO: save entries, hardstate and snapshot should be atomic, or it may corrupt the raft
-	if err := rc.persistRaftState(&rd); err != nil {
-		rc.Errorf("raft save states to disk error: %v", err)
-		go rc.ds.Stop()
-		<-rc.stopc
-		return
+	if !persisted {
+		start = time.Now()
+		if err := rc.persistRaftState(&rd); err != nil {
+			rc.Errorf("raft save states to disk error: %v", err)
+			go rc.ds.Stop()
+			<-rc.stopc
+			return
+		}
 	}
 	cost := time.Since(start)
 	if cost >= raftSlow/2 {
@@ -1132,6 +1148,18 @@ func (rc *raftNode) processReady(rd raft.Ready) {
 		raftDone <- struct{}{}
 	}
 	rc.node.Advance(rd)
+}
+
+// shouldWaitWALSync reports whether the committed entries of this ready overlap with
+// its unstable entries, in which case the entries must be saved before they are applied.
+func shouldWaitWALSync(rd *raft.Ready) bool {
+	if len(rd.CommittedEntries) == 0 || len(rd.Entries) == 0 {
+		return false
+	}
+	lastCommitted := rd.CommittedEntries[len(rd.CommittedEntries)-1]
+	firstUnstable := rd.Entries[0]
+	return lastCommitted.Term > firstUnstable.Term ||
+		(lastCommitted.Term == firstUnstable.Term && lastCommitted.Index >= firstUnstable.Index)
 }
 
 //should  atomically saves the Raft states, log entries and snapshots
